@@ -60,6 +60,7 @@ def execute(case, force_real=False):
     modes = [("scalar", None), ("scalar", "permuting"), ("scalar", 1), ("scalar", "executor"), ("scalar", "threads")]
     if not case["blobs"]:
         modes.insert(1, ("vector", None))
+        modes.insert(2, ("vector", "permuting"))  # a pool next to a vectorised likelihood must change nothing either
     real = case["real_pool"] or force_real
     if real:
         modes.append(("scalar", 2))
